@@ -8,7 +8,7 @@ ENGINES = [
     {"name": "diff-trace", "path": "spec/Diff.tla + spec/DiffTrace.tla + harness/cmd/diffrun", "serves_properties": ["C20"],
      "kind_free_text": "ztest.Diff / DiffMatch evaluated on enumerated inputs, judged by a TLA+ oracle in TLC"},
     {"name": "ino-trace", "path": "spec/InotifyTrace.tla + spec/Ideal.tla + harness/cmd/inorun + gen/gen.py",
-     "serves_properties": ["C01", "C02", "C03", "C04", "C05", "C06", "C08", "C09", "C10", "C11", "C12", "C13", "C14"],
+     "serves_properties": ["C01", "C02", "C03", "C04", "C05", "C06", "C08", "C09", "C10", "C11", "C12", "C13", "C14", "C19"],
      "kind_free_text": "scenarios (fs operations, API calls, consumer steps; seeded families and bounded-exhaustive enumerations) are replayed on the real "
                        "Watcher next to a shadow inotify instance; the recorded NDJSON trace is validated line by line by TLC against the property-level "
                        "TLA+ specification (Ideal.tla), which computes every expected value; bounded models of the design are model-checked by TLC first"},
@@ -56,6 +56,11 @@ CHECKS.update({
               "injectivity on defined bits and blindness to undefined bits are checked as theorems.",
               "Trusted: TLC; strconv.Quote is the uninterpreted quoting function.", "DESIGN.md 6 C16",
               technique="TLA+ executable specification of the renderings evaluated by TLC over the complete low input space, compared with records of the real functions", engine="ops-trace"),
+    "C19": _c("Recursive watches over trees whose sibling names share string prefixes (dir1/dir10, sub/sub2, r/a and r/ab): directories created one level at a time, inner renames, "
+              "re-creation under a renamed-away name, file operations at every depth, Remove of one of two roots; every event name is compared with the entry's true current path, which the "
+              "specification maintains component-wise (Ideal!MoveDir / IsUnder).",
+              "Trusted as for the other inotify checks. Bursts (mkdir -p) and moves across the tree boundary are not generated, as the property excludes them. What WatchList shows for a recursive watch is not judged.",
+              "DESIGN.md 6 C19"),
     "C20": _c("ztest.Diff on all pairs of line sequences over {a,b,c} up to 4 (quick) / 5 (thorough) lines plus seeded long random texts, ztest.DiffMatch on all bounded patterns x texts; every "
               "output is parsed into hunks and judged by the TLA+ oracle Diff.tla (empty iff equal, hunks apply to the first text giving the second, headers agree, context <= 3, matcher semantics).",
               "This is a pure function: the specification is an executable oracle and TLC its evaluator; no state space beyond the patch automaton. Trusted: TLC, the driver's hunk parser.",
@@ -65,5 +70,4 @@ CHECKS.update({
 NOT_APPLICABLE = {
     "C17": "check under construction (kqueue backend on a simulated kqueue); not claimed yet",
     "C18": "check under construction (kqueue backend on a simulated kqueue); not claimed yet",
-    "C19": "check under construction (recursive watch semantics in the trace spec); not claimed yet",
 }
